@@ -97,12 +97,16 @@ def run(model, col, tier):
         col.check(len(asserts) >= 2, "R09.2", f"{TYPES}::_GetCommonPrimitiveType equal shapes ({kind})", "identical shape is asserted before the common type is built", "the shape equality assertion is missing", TYPES, gp)
     # ---------------- R09.3 ------------------------------------------------------
     ctv = model.cls(CT, "ComputeTypeVisitor").own_method("_ProcessExpression")
-    t = " ".join(unparse(ctv).split())
+    from ..sem import alpha as _alpha93
+
+    t = _alpha93(ctv).replace("p0.", "expr.")  # p0 = the expression being typed
     col.check("expr.ResolveType(expr.GetLeft().GetType(), expr.GetRight().GetType())" in t, "R09.3", f"{CT}::_ProcessExpression resolves (left type, right type)", "operand types are handed over in source order",
               "the binary expression is not resolved with (left type, right type) in that order", CT, ctv)
     col.check("expr.SetType(expr.GetOperator().GetReturnType())" in t, "R09.3", f"{CT}::_ProcessExpression result type", "the expression's type is the resolved operator's return type", "the expression's type is not the operator's return type", CT, ctv)
     be = model.cls(ASTF, "BinaryExpression").own_method("ResolveType")
-    col.check("self._operator = types.ResolveBinaryExpressionType(self.op, left, right)" in " ".join(unparse(be).split()), "R09.3", f"{ASTF}::BinaryExpression.ResolveType", "resolves its own operation with (left, right)",
+    from ..sem import alpha as _alpha9
+
+    col.check("self._operator = types.ResolveBinaryExpressionType(self.op, p0, p1)" in _alpha9(be), "R09.3", f"{ASTF}::BinaryExpression.ResolveType", "resolves its own operation with (left, right)",
               "BinaryExpression.ResolveType does not pass (own operation, left, right)", ASTF, be)
     et = model.cls(TYPES, "ExpressionType")
     col.check("return self._operands[index]" in unparse(et.own_method("GetOperandType")) and "return self._result" in unparse(et.own_method("GetReturnType")), "R09.3", f"{TYPES}::ExpressionType accessors", "operand i / result are returned as stored", None, TYPES, et.node)
